@@ -102,6 +102,7 @@ type StratS struct {
 	CNoRestarts      int    `json:"cNoRestarts"`
 	CMode            string `json:"cMode"`
 	CAntiAffinity    bool   `json:"cAntiAffinity"`
+	CSelector        bool   `json:"cSelector"` // canary nodeSelector is canary=yes (otherwise it selects every node)
 	APEnabled        bool   `json:"apEnabled"`
 	APMaxRestarts    int    `json:"apMaxRestarts"`
 	APMaxSlowStart   int    `json:"apMaxSlowStart"`
@@ -205,6 +206,7 @@ type Result struct {
 	After   int    `json:"after"` // seconds, rounded up
 	Err     bool   `json:"err"`
 	ErrMsg  string `json:"errMsg"`
+	ErrKind string `json:"errKind"` // "" | nodes (not enough canary nodes) | injected | conflict | notfound | validation | other
 	Panic   bool   `json:"panic"`
 	NErrs   int    `json:"nErrs"` // number of aggregated errors, when the error is an aggregate
 }
